@@ -157,6 +157,19 @@ Proof. exact rsstep_copy. Qed.
 Theorem C14_registry_slots_wf : forall cs o cs' r k, Forall WFctx cs -> rsstep cs o = Some (cs', r, k) -> Forall WFctx cs'.
 Proof. exact rsstep_wf. Qed.
 
+(* the multi-slot machines evaluated by the correspondence (run_tour / run_reg) only reach values of single-tour /
+   single-registry histories, so the history theorems above apply to every slot of every campaign case *)
+Theorem C14_run_tour_slots : forall c ops s,
+  In s (sfold [mkSlot (tour_new c) None] ops) -> exists tops, trun (tour_new c) tops = Some (s_tour s).
+Proof. exact run_tour_slots. Qed.
+Theorem C14_run_tour_final : forall c ops, snd (run_tour c ops) = map dump_slot (sfold [mkSlot (tour_new c) None] ops).
+Proof. intros c ops. exact (srun_final ops _ _). Qed.
+Theorem C14_run_reg_slots : forall gs ops c,
+  In c (rsfold [rctx_new gs] ops) -> exists hs, fst (hrun (rctx_new gs) hs) = c.
+Proof. exact run_reg_slots. Qed.
+Theorem C14_run_reg_final : forall gs ops, snd (run_reg gs ops) = map dump_rctx (rsfold [rctx_new gs] ops).
+Proof. intros gs ops. exact (rsrun_final ops _ _). Qed.
+
 (* ------------------------------------------------------------------ non-vacuity *)
 Theorem C14_nonvacuous_tour :
   exists ops t, guarded (tour_new true) ops /\ trun (tour_new true) ops = Some t /\ length (abs t) = 2 /\ job_count t = 1.
